@@ -635,3 +635,211 @@ def stream_pipeline(ctx):
                   dict(desc, state=state_json(st), autotruncate=auto),
                   tag=('autotruncate' if auto else 'default') + ('-error' if 'error' in res else ''))
     return s.run()
+
+
+# ------------------------------------------------------------------ oracle (statement level, no model)
+
+def shuffled(rows, seed):
+    import numpy as np
+    order = np.random.default_rng(seed).permutation(len(rows))
+    return [rows[int(i)] for i in order]
+
+
+def check_window_case(case):
+    """returns None or a description of the violated clause; sets case['_check']"""
+    import numpy as np
+    kind = case['class']
+    if kind == 'nearest':
+        # order independence and data range of get_p_th_nearest (distinct n per code, one value per (code, rate))
+        rows = case['table']
+        rates = sorted({float(r[5]) for r in rows})
+        base = impl_nearest(rows)
+        if base.startswith('ERR'):
+            case['_check'] = 'raised'
+            return f'get_p_th_nearest raised {base[4:]}'
+        v = float(Fraction(base))
+        if v not in rates:
+            case['_check'] = 'range'
+            return f'p_th_nearest={v!r} is not one of the supplied error rates {rates}'
+        for sd in (1, 2, 3):
+            other = impl_nearest(shuffled(rows, sd))
+            if other != base:
+                case['_check'] = 'order'
+                return f'p_th_nearest={v!r}, with the rows in another order {other}'
+        if len({r[0] for r in rows}) == 1 and v != rates[0]:
+            case['_check'] = 'single-code'
+            return f'one code only: p_th_nearest={v!r}, smallest rate {rates[0]}'
+        return None
+    if kind == 'sd-interp':
+        rows = case['table']
+        pn = case.get('p_nearest')
+        rates = sorted({float(r[5]) for r in rows})
+        got, grid = impl_sd(rows, pn)
+        if got.startswith('ERR') or got.startswith('not-on-grid'):
+            case['_check'] = 'raised'
+            return f'get_p_th_sd_interp: {got}'
+        ic, il, ir = (int(x) for x in got.split())
+        pc, pl, pr = grid[ic], grid[il], grid[ir]
+        if not (pl <= pc <= pr):
+            case['_check'] = 'window-contains-crossover'
+            return f'p_left={pl}, p_crossover={pc}, p_right={pr}'
+        if pl < rates[0] or pr > rates[-1] + RES * (1 + 1e-9):
+            case['_check'] = 'range'
+            return f'window [{pl}, {pr}] outside the data range [{rates[0]}, {rates[-1]}] (+ one grid step)'
+        for sd in (1, 2):
+            other, _ = impl_sd(shuffled(rows, sd), pn)
+            if other != got:
+                case['_check'] = 'order'
+                return f'(crossover, left, right) grid indices {got}, with the rows in another order {other}'
+        if 'pth' in case:
+            gap = max(b - a for a, b in zip(rates, rates[1:]))
+            if abs(pc - case['pth']) > 3 * RES + gap / 4:
+                case['_check'] = 'crossover'
+                return f'curves cross at {case["pth"]}, p_crossover={pc} (rate spacing {gap})'
+            if not (pl <= case['pth'] <= pr):
+                case['_check'] = 'window-contains-threshold'
+                return f'curves cross at {case["pth"]}, window [{pl}, {pr}]'
+        return None
+    if kind == 'window':
+        # the branches of calculate_thresholds on a data set, with skips / replaces / overrides keyed by label triples
+        ds = case['dataset']
+        a = analysis_of(ds)
+        keys = label_keys(a)
+        res_tab = a._results
+        st = {'skips': [tuple(k) for k in case['state']['skips']],
+              'replaces': [(tuple(k), v) for k, v in case['state']['replaces']],
+              'overrides': [(tuple(k), v) for k, v in case['state']['overrides']]}
+        set_state(a, st)
+        auto = bool(case.get('autotruncate'))
+        res = run_calc(a, autotruncate=auto)
+        kcols = ['code', 'error_model_label', 'decoder_label']
+        reps = dict(st['replaces'])
+        ovs = dict(st['overrides'])
+        expect_keys = [k for k in keys if k not in st['skips']]
+        if 'error' in res:
+            # documented reasons only: nothing left to fit, or a manual window without data
+            fitted = [k for k in expect_keys if k not in reps]
+            if not fitted:
+                return None
+            for k in fitted:
+                if k in ovs:
+                    sel = res_tab[(res_tab[kcols] == k).all(axis=1)]
+                    er = ovs[k].get('error_rate', {})
+                    dd = ovs[k].get('d', {})
+                    lo = er['min'] - 1e-9 if er.get('min') is not None else -1.0
+                    hi = er['max'] + 1e-9 if er.get('max') is not None else 2.0
+                    sel = sel[(sel['error_rate'] >= lo) & (sel['error_rate'] <= hi) & (sel['d'] >= dd.get('min', 0))
+                              & (sel['d'] <= dd.get('max', 10 ** 9))]
+                    if len(sel) == 0:       # the manual window holds no data point of this parameter set
+                        return None
+            case['_check'] = 'raised'
+            return f"calculate_thresholds raised {res['error'][4:]}"
+        got_keys = [e['key'] for e in res['entries']]
+        if got_keys != expect_keys:
+            case['_check'] = 'skip'
+            return f'rows for {got_keys}, expected {expect_keys} (skips {st["skips"]})'
+        for e in res['entries']:
+            k = e['key']
+            sel = res_tab[(res_tab[kcols] == k).all(axis=1)]
+            rates = sorted(float(x) for x in sel['error_rate'].unique())
+            if e['pn'] not in rates:
+                case['_check'] = 'seed-range'
+                return f"p_th_nearest={e['pn']} is not an error rate of {k}"
+            if k in reps:
+                rp = reps[k]
+                if 'p_th_fss' in rp:
+                    u = rp.get('p_th_fss_se', 0)
+                    want = [rp['p_th_fss'], rp['p_th_fss'] - u, rp['p_th_fss'] + u, u]
+                    if e['kind'] != 'R' or e['vals'] != want or not e['found'] or e['status'] != 'success':
+                        case['_check'] = 'replace'
+                        return f"replacement {rp}: reported {e.get('vals')}, found={e.get('found')}"
+                continue
+            if e['kind'] != 'F':
+                case['_check'] = 'replace'
+                return f'{k} is not replaced but was not fitted'
+            lo, hi = e['pl'], e['pr']
+            if k in ovs:
+                t = ovs[k]
+                er = t.get('error_rate', {})
+                wlo = er['min'] - 1e-9 if er.get('min') is not None else rates[0]
+                whi = er['max'] + 1e-9 if er.get('max') is not None else rates[-1]
+                if (lo, hi) != (wlo, whi):
+                    case['_check'] = 'truncate'
+                    return f'manual window {t}: p_left/p_right = {lo}, {hi}'
+                dd = t.get('d', {})
+                sel = sel[(sel['d'] >= dd.get('min', 0)) & (sel['d'] <= dd.get('max', 10 ** 9))]
+            elif not auto and (lo, hi) != (rates[0], rates[-1]):
+                case['_check'] = 'default-window'
+                return f'default window [{lo}, {hi}], data [{rates[0]}, {rates[-1]}]'
+            elif auto and not (rates[0] <= lo <= e['psd'] <= hi <= rates[-1] + RES * (1 + 1e-9)):
+                case['_check'] = 'auto-window'
+                return f"autotruncate: p_left={lo} p_th_sd={e['psd']} p_right={hi}, data [{rates[0]}, {rates[-1]}]"
+            inside = sel[(sel['error_rate'] >= lo) & (sel['error_rate'] <= hi) & sel['p_est'].notna()]
+            if e['n'] != len(inside) or e['n_fit'] != len(inside):
+                case['_check'] = 'rows-used'
+                return f"{e['n']} rows in trunc_results, {e['n_fit']} handed to curve_fit, {len(inside)} rows of " \
+                       f'{k} lie in [{lo}, {hi}]'
+            rlo, rhi = float(inside['error_rate'].min()), float(inside['error_rate'].max())
+            if not (rlo <= e['p0'] <= rhi):
+                case['_check'] = 'start-inside-range'
+                return f"first fit starts at p_th={e['p0']}, rows used span [{rlo}, {rhi}]"
+            if not (float(inside['p_est'].min()) <= e['f0'] <= float(inside['p_est'].max())):
+                case['_check'] = 'start-rate'
+                return f"first fit starts at A={e['f0']}, rates used span [{inside['p_est'].min()}, " \
+                       f"{inside['p_est'].max()}]"
+        # order independence of the window and the start: the same records in another file order
+        ds2 = dict(ds, seed=ds['seed'] + 1)
+        a2 = analysis_of(ds2)
+        set_state(a2, st)
+        res2 = run_calc(a2, autotruncate=auto)
+        strip = lambda r: [{k: v for k, v in e.items() if k not in ('bs', 'se')} for e in r.get('entries', [])]  # noqa: E731
+        if strip(res) != strip(res2):
+            case['_check'] = 'order'
+            return 'window / start values differ when the result records are read in another order'
+        return None
+    return None
+
+
+def window_oracle_cases(ctx, deep):
+    rng = ctx.np_rng(1603)
+    cases = []
+    reps = 6 if deep else 2
+    for kind in ('generic', 'planted', 'ties-mid', 'ties-extreme', 'missing', 'nan-rate', 'duplicated',
+                 'single-distance', 'pipeline-codes', 'no-crossing', 'single-rate', 'two-rates', 'off-grid'):
+        for _ in range(reps):
+            rows = gen_table(rng, kind)
+            if kind == 'duplicated':
+                # exact copies only: a (code, rate) with two different values has no order-independent meaning
+                seen = {}
+                rows = [r for r in rows if seen.setdefault((r[0], r[5]), r[6]) == r[6]]
+            cases.append({'class': 'nearest', 'kind': kind, 'table': rows})
+    for kind in ('generic', 'planted', 'missing', 'off-grid', 'no-crossing', 'two-rates'):
+        for _ in range(reps):
+            rows = gen_table(rng, kind)
+            if len({r[1] for r in rows}) < 2:
+                continue
+            cases.append({'class': 'sd-interp', 'kind': kind, 'table': rows,
+                          'p_nearest': None if rng.random() < 0.5 else min(float(r[5]) for r in rows)})
+    # curves on the ansatz, crossing inside the range: the crossover found by interpolation
+    from harness.props import c16
+    for _ in range(4 if deep else 2):
+        inst = c16.gen_instance(rng)
+        rows = [[0, j, 2 * d * d, 1, d, p, round(c16.ansatz(inst, p, d) * 20000) / 20000]
+                for j, d in enumerate(inst['ds']) for p in inst['ps']]
+        cases.append({'class': 'sd-interp', 'kind': 'ansatz', 'table': shuffled(rows, 5), 'pth': inst['pth'],
+                      'p_nearest': min(inst['ps'])})
+    for j in range(8 if deep else 3):
+        ds = gen_dataset(rng)
+        a = analysis_of(ds)
+        st = gen_state(rng, a) if j else {'skips': [], 'replaces': {}, 'overrides': {}}
+        cases.append({'class': 'window', 'dataset': ds, 'state': state_json(st), 'autotruncate': bool(j % 2)})
+    return cases
+
+
+def window_fail_key(case):
+    k = {'class': case['class']}
+    if '_check' in case:
+        k['check'] = case['_check']
+    if 'kind' in case:
+        k['kind'] = case['kind']
+    return k
